@@ -274,9 +274,15 @@ func H_C17_CallSites() {
 			}
 		}
 	case 7:
-		st := buildAuction(e, "a.", aSpec{id: 0, status: types.AuctionStatusStarted, nEnd: 1, nUsers: 1, allowAll: true, nBids: 1})
+		// settlement of a fixed-price or batch auction, with or without bids (an empty allocation is still a settlement)
+		nb := nd.Pick("a.nBids", 2)
+		isBatch := nd.Pick("a.batch", 2) == 1
+		st := buildAuction(e, "a.", aSpec{id: 0, batch: isBatch, status: types.AuctionStatusStarted, nEnd: 1, nUsers: 1, allowAll: true, nBids: nb})
 		setAuctionSeq(e, 1)
 		nd.Assume(!st.base.EndTimes[0].After(now))
+		if isBatch {
+			nd.Assume(st.batchA.MaxExtendedRound == 0)
+		}
 		l.Clock = func() int {
 			if getAuction(e, 0).GetStatus() != types.AuctionStatusStarted {
 				return 1
@@ -289,7 +295,7 @@ func H_C17_CallSites() {
 			c, ok := l.Last(method)
 			nd.Assert("C17.site-called-once", ok && l.Count(method) == 1)
 			if ok {
-				nd.Assert("C17.site-real-values", c.U[0] == 0 && c.N == 1)
+				nd.Assert("C17.site-real-values", c.U[0] == 0 && c.N == nb)
 				nd.Assert("C17.site-before-commit", c.Seq == 0)
 			}
 		}
